@@ -3,7 +3,9 @@
 package slip
 
 import (
+	"encoding/json"
 	"fmt"
+	"math/big"
 	"time"
 	"unsafe"
 )
@@ -99,6 +101,8 @@ func SimpleObject(val any) (obj Object) {
 
 	case string:
 		obj = String(tv)
+	case json.Number:
+		obj = numberObject(string(tv))
 	case []byte:
 		obj = String(tv)
 
@@ -134,6 +138,23 @@ func SimpleObject(val any) (obj Object) {
 		obj = String(tv.Error())
 	}
 	return
+}
+
+// numberObject converts the text of a number that does not fit an int64 or a
+// float64 (a json.Number as left by the JSON and SEN parsers) to an integer
+// or a long-float. Text that is not a number stays a string.
+func numberObject(text string) Object {
+	if bi, ok := new(big.Int).SetString(text, 10); ok {
+		if bi.IsInt64() {
+			return Fixnum(bi.Int64())
+		}
+		return (*Bignum)(bi)
+	}
+	prec := uint(float64(len(text))*prec10t2) + 16
+	if bf, _, err := big.ParseFloat(text, 10, prec, big.ToNearestEven); err == nil {
+		return (*LongFloat)(bf)
+	}
+	return String(text)
 }
 
 // Simplify an Object.
